@@ -14,15 +14,15 @@ func readFile(p string) (string, error) {
 
 // small constructors for program shapes
 
-func L(k int) Expr          { return IntLit{Marker: k} }
-func N(v int64) Expr        { return IntLit{Marker: -1, Val: v} }
-func V(n string) Expr       { return Var{Name: n} }
-func S(s string) Expr       { return StrLit{Val: gosym.Conc(s)} }
-func SR(s gosym.Str) Expr   { return StrLit{Val: s} }
-func T() Expr               { return BoolLit{Val: true} }
-func F() Expr               { return BoolLit{Val: false} }
-func P(e Expr) Expr         { return Paren{X: e} }
-func NOT(e Expr) Expr       { return Not{X: e} }
+func L(k int) Expr                  { return IntLit{Marker: k} }
+func N(v int64) Expr                { return IntLit{Marker: -1, Val: v} }
+func V(n string) Expr               { return Var{Name: n} }
+func S(s string) Expr               { return StrLit{Val: gosym.Conc(s)} }
+func SR(s gosym.Str) Expr           { return StrLit{Val: s} }
+func T() Expr                       { return BoolLit{Val: true} }
+func F() Expr                       { return BoolLit{Val: false} }
+func P(e Expr) Expr                 { return Paren{X: e} }
+func NOT(e Expr) Expr               { return Not{X: e} }
 func Call(f string, a ...Expr) Expr { return CallE{Fn: f, Args: a} }
 
 func Op(op string, l, r Expr) Expr {
@@ -37,22 +37,26 @@ func Op(op string, l, r Expr) Expr {
 	panic("Op: " + op)
 }
 
-func Def(name string, e Expr) Stmt            { return Define{Names: []string{name}, Vals: []Expr{e}} }
-func DefN(names []string, es ...Expr) Stmt    { return Define{Names: names, Vals: es} }
-func VarT(name string, t Type) Stmt           { return Define{Names: []string{name}, VarKw: true, Type: &t} }
-func VarTV(name string, t Type, e Expr) Stmt  { return Define{Names: []string{name}, VarKw: true, Type: &t, Vals: []Expr{e}} }
-func Set(name string, e Expr) Stmt            { return Assign{Names: []string{name}, Vals: []Expr{e}} }
-func SetN(names []string, es ...Expr) Stmt    { return Assign{Names: names, Vals: es} }
-func OpSet(name, op string, e Expr) Stmt      { return OpAssign{Name: name, Op: op, Val: e} }
-func Inc(name string) Stmt                    { return IncDec{Name: name, Inc: true} }
-func Dec(name string) Stmt                    { return IncDec{Name: name, Inc: false} }
-func Pr(es ...Expr) Stmt                      { return Print{Args: es} }
-func IfS(c Expr, body ...Stmt) If             { return If{Conds: []Expr{c}, Blocks: [][]Stmt{body}} }
-func (b Blk) stmts() []Stmt                   { return []Stmt(b) }
+func Def(name string, e Expr) Stmt         { return Define{Names: []string{name}, Vals: []Expr{e}} }
+func DefN(names []string, es ...Expr) Stmt { return Define{Names: names, Vals: es} }
+func VarT(name string, t Type) Stmt        { return Define{Names: []string{name}, VarKw: true, Type: &t} }
+func VarTV(name string, t Type, e Expr) Stmt {
+	return Define{Names: []string{name}, VarKw: true, Type: &t, Vals: []Expr{e}}
+}
+func Set(name string, e Expr) Stmt         { return Assign{Names: []string{name}, Vals: []Expr{e}} }
+func SetN(names []string, es ...Expr) Stmt { return Assign{Names: names, Vals: es} }
+func OpSet(name, op string, e Expr) Stmt   { return OpAssign{Name: name, Op: op, Val: e} }
+func Inc(name string) Stmt                 { return IncDec{Name: name, Inc: true} }
+func Dec(name string) Stmt                 { return IncDec{Name: name, Inc: false} }
+func Pr(es ...Expr) Stmt                   { return Print{Args: es} }
+func IfS(c Expr, body ...Stmt) If          { return If{Conds: []Expr{c}, Blocks: [][]Stmt{body}} }
+func (b Blk) stmts() []Stmt                { return []Stmt(b) }
 
 type Blk []Stmt
 
-func IfElse(c Expr, then Blk, els Blk) Stmt { return If{Conds: []Expr{c}, Blocks: [][]Stmt{then}, Else: els} }
+func IfElse(c Expr, then Blk, els Blk) Stmt {
+	return If{Conds: []Expr{c}, Blocks: [][]Stmt{then}, Else: els}
+}
 func IfChain(conds []Expr, blocks []Blk, els Blk) Stmt {
 	x := If{Conds: conds}
 	for _, b := range blocks {
